@@ -44,6 +44,9 @@ def run(ctx):
     from harness import monitors
     monitors.MONITORS['C05s'] = _leaked_signal
     machine_prop.run(ctx, FAMILIES, MONITORS + ['C05s'], extra_scenarios=double_failures(ctx.rng, ctx.n(40, 800)))
+    # scopes around borrowed resources (acquiring and releasing suspend, also while a scope is being interrupted):
+    # "promptly" for until-blocks is C07's rule (block left at the time its notification fires)
+    machine_prop.run(ctx, [('resources', 60, 1200, {})], MONITORS + ['C05s', machine_prop.unclassified('C07')])
 
 
 def search(ctx):
